@@ -66,7 +66,7 @@ def apply(spec, p, rng):
     elif kind == "leaf":
         node = _get(spec["templates"][p[1]]["steps"], p[2])
         r = rng.random()
-        new = (["errfut", "ef%d" % rng.randint(0, 9)] if r < 0.35 else
+        new = (["errfut", ("ef%d" if r < 0.22 else "stop%d") % rng.randint(0, 9)] if r < 0.35 else
                ["lazy", "fail", "lf%d" % rng.randint(0, 9)] if r < 0.7 else ["bad", rng.choice([42, "s", 1.5])])
         if not p[3]:
             _get(spec["templates"][p[1]]["steps"], p[2][:-1])[p[2][-1]] = new
